@@ -73,6 +73,9 @@ fn main() {
 
 fn sim(id: &str, tier: &str, seed: u64, threads: usize, only: Option<usize>, shard: (usize, usize)) -> Json {
     tftpd::verif::enable_virtual_time();
+    // worker threads that are unwound by the simulator (cap) or that panic in an overflow-checked build are
+    // recorded in the case outcome; keep stderr quiet
+    std::panic::set_hook(Box::new(|_| {}));
     let Some(plan) = vharness::props::build(id, tier, seed, threads) else {
         eprintln!("no simulator plan for {id}");
         std::process::exit(2);
